@@ -344,9 +344,9 @@ def all_cfgs(tiebreaks):
             for tb in tbs for s in (True, False) for t in (False, True) for a in ("v2", "v1") for g in (1, 4, 16)]
 
 
-def make_scenarios(ctx, rng, sizes, nq=None):
+def make_scenarios(ctx, rng, sizes, nq=None, base=0):
     scs = []
-    for i, size in enumerate(sizes):
+    for i, size in enumerate(sizes, base):
         nv = rng.choice([1, 2, 5, 12, 30, 60, 60]) if size > 0 else rng.choice([0, 5])
         nv = max(nv, 1) if size > 0 else nv
         vocab = gen_vocab(rng, nv)
@@ -382,9 +382,15 @@ def j_scan(ctx, h, tiebreaks):
         return "Matcher.scan partitions=%s chunks=%s tail=%s sort=%s tac=%s criteria=%s on %d lines: order %s..." % (
             r.get("parts"), r.get("chunks"), r.get("tail"), r.get("sort"), r.get("tac"), r.get("criteria"),
             len(r.get("list", ())), (r.get("out") or [])[:10] or r.get("panic") or r.get("error"))
-    recs = record_and_judge(ctx, h, "TestVerifScan", inputs, "Judge_Rank", "Judge_Rank.cfg", "scan", describe=describe,
-                            workers=TLCW, timeout=3000)
-    multi = sum(1 for r in recs if r.get("chunks", 0) > r.get("parts", 1) > 1 and len(set(r.get("out", ()))) > 1)
+    recs = []
+    step = 400
+    for k in range(0, len(inputs), step):
+        part = record_and_judge(ctx, h, "TestVerifScan", inputs[k:k + step], "Judge_Rank", "Judge_Rank.cfg",
+                                "scan" if k == 0 else "scan-%d" % (k // step), describe=describe, workers=TLCW, timeout=3000)
+        # keep only what the coverage counters need
+        recs += [{"chunks": r.get("chunks", 0), "parts": r.get("parts", 1), "tail": r.get("tail", 0),
+                  "distinct_out": len(set(r.get("out", ())))} for r in part]
+    multi = sum(1 for r in recs if r["chunks"] > r["parts"] > 1 and r["distinct_out"] > 1)
     ctx.cov["scan_runs"] = len(recs)
     ctx.cov["scan_runs_multi_chunk_partitions"] = multi
     ctx.cov["scan_runs_tail_trimmed"] = sum(1 for r in recs if r.get("tail", 0) > 0)
@@ -399,9 +405,9 @@ def j_binary(ctx, h, tiebreaks):
     if ctx.quick:
         scs = make_scenarios(ctx, rng, SIZES_SMALL + [1000, 3201, 7001])
         for sc in scs:
-            for cfg in rng.sample(cfgs, 60):
+            for cfg in rng.sample(cfgs, 45):
                 jobs.append((sc, dict(cfg)))
-        big = make_scenarios(ctx, rng, [30000, 12345])
+        big = make_scenarios(ctx, rng, [30000, 12345], base=1000)
         for sc in big:
             for cfg in rng.sample(cfgs, 8):
                 jobs.append((sc, dict(cfg)))
@@ -412,7 +418,7 @@ def j_binary(ctx, h, tiebreaks):
         for rep in range(3):                       # every configuration on three different scenarios
             for i, cfg in enumerate(order):
                 jobs.append((scs[(i + rep * 7) % len(scs)], dict(cfg)))
-        big = make_scenarios(ctx, rng, SIZES_BIG * 3)
+        big = make_scenarios(ctx, rng, SIZES_BIG * 3, base=1000)
         for sc in big:
             for cfg in rng.sample(cfgs, 40):
                 jobs.append((sc, dict(cfg)))
@@ -431,16 +437,28 @@ def j_binary(ctx, h, tiebreaks):
             c["cpus"] = rng.choice([1, 2])
         extra.append((sc, c))
     jobs += extra
-    recs, bad = run_jobs(ctx, h, jobs, "bin")
-    nontriv = {(r["sid"], tuple(r["args"])) for r in recs if len(set(r["out"])) >= 2 and len(r["out"]) < len(r["list"])}
-    ctx.cov["binary_runs"] = len(recs)
-    ctx.cov["binary_runs_rejected"] = len(bad)
-    ctx.cov["binary_configurations"] = len({tuple(r["args"]) + (r["gomaxprocs"], r["cpus"]) for r in recs})
-    ctx.cov["binary_list_sizes"] = sorted({len(r["list"]) for r in recs})
-    r = next((r for r in recs if 3 <= len(r["out"]) <= 40 and r["sort"] and len(set(r["out"])) > 2), None)
-    if r:
-        ctx.sample({"fzf": " ".join(r["args"]) + " -f " + repr(r["querystr"]),
-                    "input": [r["lines"][v - 1] for v in r["list"]][:40], "stdout": [r["lines"][v - 1] for v in r["out"]]})
+    nontriv, confs, sizes, nrec, nbad, shown = set(), set(), set(), 0, 0, False
+    step = 2500
+    for k in range(0, len(jobs), step):
+        recs, bad = run_jobs(ctx, h, jobs[k:k + step], "bin" if k == 0 else "bin%d" % (k // step))
+        nrec += len(recs)
+        nbad += len(bad)
+        for r in recs:
+            if len(set(r["out"])) >= 2 and len(r["out"]) < len(r["list"]):
+                nontriv.add((r["sid"], tuple(r["args"])))
+            confs.add(tuple(r["args"]) + (r["gomaxprocs"], r["cpus"]))
+            sizes.add(len(r["list"]))
+        r = next((r for r in recs if 3 <= len(r["out"]) <= 40 and r["sort"] and len(set(r["out"])) > 2), None)
+        if r and not shown:
+            shown = True
+            ctx.sample({"fzf": " ".join(r["args"]) + " -f " + repr(r["querystr"]),
+                        "input": [r["lines"][v - 1] for v in r["list"]][:40], "stdout": [r["lines"][v - 1] for v in r["out"]]})
+        if len(ctx.violations) >= 40:
+            break
+    ctx.cov["binary_runs"] = nrec
+    ctx.cov["binary_runs_rejected"] = nbad
+    ctx.cov["binary_configurations"] = len(confs)
+    ctx.cov["binary_list_sizes"] = sorted(sizes)
     return len(nontriv)
 
 
